@@ -58,6 +58,7 @@ def perform (d : Direct) : Action → Option (String × Direct)
         match shellDrop d.reqs k d.w with
         | none => some ("noreq", d)
         | some (reqs, w) => some ("-", { d with w := w, reqs := reqs })
+  | .abort n => some ("-", { d with w := doAbort n d.w })
   | _ => none
 
 open M.Rt M.Hosts in
